@@ -29,7 +29,7 @@ TRUSTED_EXTRA = ["harness/cmd/vh/cli.go (subprocess plumbing: temp files, exit s
 
 FORMATS = ["text", "pretty", "binary", "events", "none"]
 MODES = ["file", "stdin"]
-IONGO = os.path.join(HARNESS, "iongo")
+IONGO = os.path.join(HARNESS, "iongo_cover" if os.environ.get("VERIF_COVER") else "iongo")
 TYPE_NAMES = {1: "null", 2: "bool", 3: "int", 4: "float", 5: "decimal", 6: "timestamp", 7: "symbol", 8: "string",
               9: "clob", 10: "blob", 11: "list", 12: "sexp", 13: "struct"}
 KIND_TYPE = {"list": 11, "sexp": 12, "struct": 13}
@@ -39,7 +39,8 @@ KIND_TYPE = {"list": 11, "sexp": 12, "struct": 13}
 # build of the real binary; which transcription the tree contains
 # ---------------------------------------------------------------------------
 def build_iongo():
-    rc, out = sh("go build -o %s ./cmd/ion-go" % IONGO, cwd=REPO, env=GOENV, timeout=1200)
+    import vlib as _v
+    rc, out = sh("go build %s -o %s ./cmd/ion-go" % (_v.COVER_FLAGS if _v.cover_mode() else "", IONGO), cwd=REPO, env=GOENV, timeout=1200)
     return rc == 0, out
 
 
